@@ -833,7 +833,9 @@ impl Eraser {
             // a temporary holding a member expression used directly as callee would lose `this`
             if let Some(t) = self.temp_name(callee) {
                 if let Some(b) = self.env.get(t) {
-                    if ty(&b.raw) == "MemberExpression" || (ty(&b.value) == "MemberExpression" && b.value.get("$hook").is_none()) {
+                    // (`t = a?.p` too: an optional member is a member, the call through `t` has no receiver either)
+                    let memberish = |v: &Value| ty(v) == "MemberExpression" || ty(v) == "SuperPropExpression" || (ty(v) == "OptionalChainingExpression" && ty(&v["base"]) == "MemberExpression");
+                    if memberish(&b.raw) || (memberish(&b.value) && b.value.get("$hook").is_none()) {
                         return err("this-lost", format!("{t} = {} is called directly: the original call's receiver is lost", brief(&b.raw)));
                     }
                 }
